@@ -89,6 +89,12 @@ func script(seed int64, idx int) {
 	allowFaults := rng.Intn(3) == 0
 	nSteps := 5 + rng.Intn(8)
 	for st := 0; st < nSteps; st++ {
+		if rng.Intn(5) == 0 { // the next receipt / head requests are slow: head scans, log deliveries and re-observations overlap differently
+			m := []string{"getTransactionReceipt", "getTransactionReceipt", "getBlockByNumber", "getBlockByHash"}[rng.Intn(4)]
+			sim.SlowNext(m, 1+rng.Intn(3), time.Duration(20+rng.Intn(80))*time.Millisecond)
+			tr("the next " + m + " call(s) are slow")
+			vlib.CCount("slow_calls_injected", 1)
+		}
 		switch x := rng.Intn(20); {
 		case x < 8: // a transaction is mined in the next block; the head moves on by a jump
 			kind := []string{"core", "core", "core", "foreign-address", "other-topic", "failed-tx"}[rng.Intn(6)]
